@@ -10,6 +10,14 @@ M pg <pfn> <pdpos|-> <offset> <size> <flags> <dec>
 M call <pol> read <as> <addr> <len> | <oracle>      -> > T <events>| read <status> <n>
 M call <pol> getpage <as> <addr> | <oracle>         -> > T <events>| getpage <status>
 M call <pol> putpage <as> <addr> |                  -> > T <events>| drop
+M call <pol> fb <pos> <sz> | <oracle>               -> > T <events>| fb ok entry|bounce   (fcache_get_fb + fcache_put)
+M axinit <cbsz> s=<slots> o=<mru order>             read cache of the dump's translation context as the harness printed it;
+                                                    callback stack = [0] (the library's own record)
+M axcall <pol> axread <as> <addr> | <oracle>          -> > T <events>| axread <status> s=.. o=..   (do_read64 -> get_cache_buf)
+M axcall <pol> addcb <id> | a1|a0                     -> > T <events>| addcb ok|nomem s=.. o=..
+M axcall <pol> delcb <id> |                           -> > T <events>| delcb s=.. o=..
+M axcall <pol> freectx |                              -> > T <events>| free     (kdump_free: addrxlat_ctx_del_cb of record 0, which
+                                                    was allocated before tracing began: no F event for it)
 M checkreset                                        new session: empty ledger
 M check <events>                                    -> > L ok <held> | > L VIOLATION <index> <event>   (ledger carried on)
 ```
@@ -85,6 +93,8 @@ structure St where
   cfg : Cfg := ⟨4096, 4194304, 0, 32, 104, 2, 4096, 0, false, false, true, true⟩
   pages : List (Nat × PageInfo) := []
   led : List Res := []          -- ledger of the session checked by `M check`
+  ax : AxCtx := ⟨rcInit 4, [0]⟩
+  cbsz : Nat := 72
 
 def lookup (s : St) (pfn : Nat) : PageInfo :=
   match s.pages.find? (fun p => p.1 = pfn) with
@@ -95,6 +105,18 @@ def kv (ws : List String) (k : String) (d : Nat) : Nat :=
   match ws.find? (fun w => w.startsWith (k ++ "=")) with
   | some w => ((w.drop (k.length + 1)).toNat?).getD d
   | none => d
+
+def showSlot : Option Page → String
+  | some q => s!"{q.1}:{q.2}"
+  | none => "-"
+
+def showRc (rc : RdCache) : String :=
+  "s=" ++ String.intercalate "," (rc.slots.map showSlot) ++ " o=" ++ String.intercalate "," (rc.order.map toString)
+
+def parseSlot (t : String) : Option Page :=
+  match t.splitOn ":" with
+  | [a, b] => (a.toNat?).bind fun a => b.toNat?.map fun b => (a, b)
+  | _ => none
 
 def showRes : Res → String
   | .pin c k => s!"pin:{cname c}:{k}"
@@ -151,10 +173,54 @@ partial def loop (h : IO.FS.Stream) (s : St) : IO Unit := do
         | .ok _ => IO.println s!"> T {showEvs out.evs}| getpage ok{left}"
         | .err st => IO.println s!"> T {showEvs out.evs}| getpage {showXStatus st}{left}"
         | .stuck => IO.println "> T | STUCK"
+      | ["fb", pos, sz] =>
+        let out := fcacheGetFb s.cfg pol 0 pos.toNat! sz.toNat! orc
+        let left := if out.orc.isEmpty then "" else " ORACLE-LEFT"
+        match out.res with
+        | .ok (r, _) =>
+          IO.println s!"> T {showEvs (out.evs ++ fcachePut r)}| fb ok {if r.isSome then "entry" else "bounce"}{left}"
+        | .err st => IO.println s!"> T {showEvs out.evs}| fb {showStatus st}{left}"
+        | .stuck => IO.println "> T | STUCK"
       | ["putpage", as, addr] =>
         IO.println s!"> T {showEvs (addrxlatPutPage s.cfg as.toNat! addr.toNat!)}| drop"
       | _ => IO.println "> T | BAD-CALL"
     loop h s
+  | ["M", "axinit", cbsz, sl, od] =>
+    let slots := ((sl.drop 2).toString.splitOn ",").map parseSlot
+    let order := ((od.drop 2).toString.splitOn ",").filterMap (·.toNat?)
+    loop h { s with ax := ⟨⟨slots, order⟩, [0]⟩, cbsz := cbsz.toNat! }
+  | "M" :: "axcall" :: pol :: rest =>
+    let args := rest.takeWhile (· ≠ "|")
+    let orcs := (rest.dropWhile (· ≠ "|")).drop 1
+    let pol := parsePol pol
+    match orcs.mapM parseOrc with
+    | none => IO.println "> T | BAD-ORACLE"; loop h s
+    | some orc =>
+      match args with
+      | ["axread", as, addr] =>
+        let r := getCacheBuf s.cfg pol s.ax.rc as.toNat! addr.toNat! (lookup s) orc
+        let left := if r.1.orc.isEmpty then "" else " ORACLE-LEFT"
+        match r.1.res with
+        | .ok _ => IO.println s!"> T {showEvs r.1.evs}| axread ok {showRc r.2}{left}"
+        | .err st => IO.println s!"> T {showEvs r.1.evs}| axread {showXStatus st} {showRc r.2}{left}"
+        | .stuck => IO.println "> T | STUCK"
+        loop h { s with ax := { s.ax with rc := r.2 } }
+      | ["addcb", id] =>
+        let r := ctxAddCb s.cbsz s.ax id.toNat! orc
+        match r.1.res with
+        | .ok _ => IO.println s!"> T {showEvs r.1.evs}| addcb ok {showRc r.2.rc}"
+        | .err _ => IO.println s!"> T {showEvs r.1.evs}| addcb nomem {showRc r.2.rc}"
+        | .stuck => IO.println "> T | STUCK"
+        loop h { s with ax := r.2 }
+      | ["delcb", id] =>
+        let r := ctxDelCb s.cfg s.cbsz s.ax id.toNat!
+        IO.println s!"> T {showEvs r.1}| delcb {showRc r.2.rc}"
+        loop h { s with ax := r.2 }
+      | ["freectx"] =>
+        let r := ctxDelCb s.cfg s.cbsz s.ax 0
+        IO.println s!"> T {showEvs r.1.dropLast}| free"
+        loop h { s with ax := r.2 }
+      | _ => IO.println "> T | BAD-CALL"; loop h s
   | ["M", "checkreset"] => loop h { s with led := [] }
   | "M" :: "check" :: evs =>
     match evs.mapM parseEv with
